@@ -353,6 +353,8 @@ class MQTTProtocol(MQTTBaseProtocol):
         '''
         if not self._cleanStart:
             self._syncSession()
+        # release messages held back in the queue, as far as the window allows
+        self._refillPublish(dup=False)
         if self.onMqttConnectionMade:
             self.onMqttConnectionMade()
 
